@@ -7,7 +7,6 @@
      eq      what  println(c == <reflit>)  printed ("true"/"false"/"")
      hasv,v  var v <vt> = c; println(v)  re-chunked as a BigInt
      dtobs   dynamic type of  var i interface{} = c
-     ikobs   what  println(((c - c) + 1) / 2 == 0)  printed: "true" iff c has an integer kind/type
      kids    the same observation fields for the non-leaf operands of a depth-2 expression (each observed as a
              constant of its own); used only to attribute a failure to the operand that already fails
 
@@ -25,9 +24,8 @@
    Readings chosen (DESIGN Appendix C.5):
    - "the same value" includes the constant's kind: an untyped constant's kind decides its default type and the
      arithmetic of every expression it is used in ((1.0 << 3) / 16 is 0 in Go, 0.5 if the shift result stays a
-     float), so the default type observed through interface{} is judged ("type"; only observed when the reference
-     says the constant is representable in its default type), and so is integer-ness observed through
-     ((c - c) + 1) / 2 == 0, which needs no representability.
+     float), so the default type observed through interface{} is judged ("type"); it is only observed when the
+     reference says the constant is representable in its default type.
    - the observing program (c == literal, var v T = c, type switch) is valid Go whenever the reference accepts the
      expression; if scriggo cannot build or run it the value is unusable ("value-unusable").
    - limits: integer results beyond 512 bits are rejections (gc, go/types and scriggo share the limit); everything
@@ -39,13 +37,11 @@ Bound(r, ref) == /\ r.src = Show(r.expr)
                  /\ r.reflit = RefLit(ref)
                  /\ r.vt = PrintType(ref)
                  /\ r.dt = (IF DynObservable(ref) THEN 1 ELSE 0)
-                 /\ r.ik = (IF KindObservable(ref) THEN 1 ELSE 0)
 ValueOk(r, ref) ==
   ~ref.chk \/
   /\ (r.reflit # <<>> => (r.chk = "ran" /\ r.eq = "true"))
   /\ (r.vt # "" => (r.chk = "ran" /\ r.hasv = 1 /\ r.v = IntOf(ref.v)))
   /\ (r.dt = 1 => (r.chk = "ran" /\ r.dtobs = DefaultType(ref.ty)))
-  /\ (r.ik = 1 => (r.chk = "ran" /\ r.ikobs = (IF TClass(ref.ty) = "int" THEN "true" ELSE "false")))
 \* which clause failed: "" = none
 Fail2(r, ref) ==
   IF ref.st = "any" THEN ""                                             \* not decided by the reference: skipped
@@ -79,6 +75,11 @@ LitOff(t) == CASE t.k = "lit" -> t.lk \in {"float", "imag"} /\ OffRange(DyMk(t.n
                [] t.k = "bin" -> LitOff(t.a) \/ LitOff(t.b)
                [] OTHER -> LitOff(t.a)
 NumVal(ref) == ref.st = "ok" /\ ref.chk /\ ref.v.k = "n"
+\* the expression contains a shift whose left operand is an untyped float or complex constant
+RECURSIVE HasFloatShift(_)
+HasFloatShift(t) == CASE t.k = "lit" -> FALSE
+                      [] t.k = "bin" -> (t.op \in {"<<", ">>"} /\ KindOf(t.a) \in {"u.float", "u.complex"}) \/ HasFloatShift(t.a) \/ HasFloatShift(t.b)
+                      [] OTHER -> HasFloatShift(t.a)
 RefOff(ref) == NumVal(ref) /\ TClass(ref.ty) \in {"float", "complex"} /\ (OffRange(ref.v.re) \/ OffRange(ref.v.im))
 \* an operand whose exact value float64 can only hold after rounding
 OperandNeedsRound(t) == LET e == Eval(t) IN NumVal(e) /\ (NeedsRound(e.v.re) \/ NeedsRound(e.v.im))
@@ -100,6 +101,7 @@ Sig1(r) == LET t == r.expr ref == Ref(r)
             to |-> IF t.k = "conv" THEN Coarse(t.ty) ELSE "-",
             ka |-> ka, kb |-> kb,
             na |-> IF t.k = "lit" THEN "-" ELSE t.a.k, nb |-> IF t.k = "bin" THEN t.b.k ELSE "-",
+            fsh |-> IF HasFloatShift(t) THEN 1 ELSE 0,
             xf64 |-> IF LitOff(t) \/ RefOff(ref) THEN 1 ELSE 0,
             xprec |-> IF t.k # "lit" /\ (OperandNeedsRound(t.a) \/ (t.k = "bin" /\ OperandNeedsRound(t.b))) THEN 1 ELSE 0]
 \* a failing expression one of whose operands already fails on its own is attributed to that operand
